@@ -540,7 +540,12 @@ func offeredBytes(j *judge, ws *plan.WScript, wo *WOut, opi int) []byte {
 	in := j.out.Inputs[ws.In]
 	pos := 0
 	for i := 0; i < opi; i++ {
-		pos += len(wo.Accepted[i])
+		if !ws.Ops[i].Hist {
+			pos += len(wo.Accepted[i])
+		}
+	}
+	if ws.Ops[opi].Hist {
+		pos = 0
 	}
 	n := wo.Ops[opi].Asked
 	if pos+n > len(in) {
